@@ -19,7 +19,8 @@ use domain::base::iana::{
 };
 use domain::base::message::Message;
 use domain::base::message_builder::{HashCompressor, MessageBuilder, StaticCompressor, TreeCompressor};
-use domain::base::name::{Name, ParsedName, ToName};
+use domain::base::name::{FlattenInto, Name, ParsedName, ToName};
+use octseq::OctetsFrom;
 use domain::base::rdata::{ComposeRecordData, ParseAnyRecordData, UnknownRecordData};
 use domain::base::wire::ParseError;
 use domain::base::{Record, Serial, Ttl};
@@ -37,14 +38,14 @@ type Built = AllRecordData<Vec<u8>, DN>;
 enum Val { Num(u64), Bytes(Vec<u8>), Name(Vec<u8>), Strs(Vec<Vec<u8>>) }
 
 #[derive(Clone, Copy, Debug, PartialEq)]
-enum F { Num(u32), Fix(usize), Name, Str(bool), Strs, Len16, Rest(usize) }
+enum F { Num(u32), Fix(usize), Name, Str(bool), Strs, Len16, Rest(usize), Bitmap, Svc }
 
-const REGULAR: [(u16, &str); 32] = [
+const REGULAR: [(u16, &str); 37] = [
     (1, "A"), (2, "NS"), (3, "MD"), (4, "MF"), (5, "CNAME"), (6, "SOA"), (7, "MB"), (8, "MG"), (9, "MR"),
     (10, "NULL"), (12, "PTR"), (13, "HINFO"), (14, "MINFO"), (15, "MX"), (16, "TXT"), (17, "RP"),
-    (28, "AAAA"), (33, "SRV"), (35, "NAPTR"), (39, "DNAME"), (43, "DS"), (44, "SSHFP"), (46, "RRSIG"),
-    (48, "DNSKEY"), (51, "NSEC3PARAM"), (52, "TLSA"), (59, "CDS"), (60, "CDNSKEY"), (61, "OPENPGPKEY"),
-    (63, "ZONEMD"), (250, "TSIG"), (257, "CAA"),
+    (28, "AAAA"), (33, "SRV"), (35, "NAPTR"), (39, "DNAME"), (43, "DS"), (44, "SSHFP"), (45, "IPSECKEY"), (46, "RRSIG"),
+    (47, "NSEC"), (48, "DNSKEY"), (50, "NSEC3"), (51, "NSEC3PARAM"), (52, "TLSA"), (59, "CDS"), (60, "CDNSKEY"), (61, "OPENPGPKEY"),
+    (63, "ZONEMD"), (64, "SVCB"), (65, "HTTPS"), (250, "TSIG"), (257, "CAA"),
 ];
 /// RFC 4034 6.2 as amended by RFC 6840 5.1, restricted to types with names
 const RFC_LOWER: [u16; 24] = [2, 3, 4, 5, 6, 7, 8, 9, 12, 13, 14, 15, 17, 18, 21, 24, 26, 30, 35, 36, 33, 39, 38, 46];
@@ -87,6 +88,9 @@ fn fields(t: u16) -> Vec<F> {
         43 | 48 | 59 | 60 => vec![Num(2), Num(1), Num(1), Rest(0)],
         44 => vec![Num(1), Num(1), Rest(0)],
         46 => vec![Num(2), Num(1), Num(1), Num(4), Num(4), Num(4), Num(2), Name, Rest(0)],
+        47 => vec![Name, Bitmap],
+        50 => vec![Num(1), Num(1), Num(2), Str(false), Str(false), Bitmap],
+        64 | 65 => vec![Num(2), Name, Svc],
         51 => vec![Num(1), Num(1), Num(2), Str(false)],
         52 => vec![Num(1), Num(1), Num(1), Rest(0)],
         63 => vec![Num(4), Num(1), Num(1), Rest(12)],
@@ -94,6 +98,15 @@ fn fields(t: u16) -> Vec<F> {
         257 => vec![Num(1), Str(true), Rest(0)],
         _ => vec![Rest(0)],
     }
+}
+
+/// IPSECKEY: the gateway field depends on the gateway type (second field)
+fn fields_v(t: u16, v: &[Val]) -> Vec<F> {
+    if t != 45 { return fields(t); }
+    let mut fs = vec![F::Num(1), F::Num(1), F::Num(1)];
+    match v.get(1) { Some(Val::Num(1)) => fs.push(F::Fix(4)), Some(Val::Num(2)) => fs.push(F::Fix(16)), Some(Val::Num(3)) => fs.push(F::Name), _ => {} }
+    fs.push(F::Rest(0));
+    fs
 }
 
 // ---------------------------------------------------------------- values <-> real types
@@ -135,9 +148,28 @@ fn build(t: u16, v: &[Val]) -> Result<Built, ()> {
         43 => AllRecordData::Ds(Ds::new(vnum(v, 0) as u16, SecurityAlgorithm::from_int(vnum(v, 1) as u8),
                 DigestAlgorithm::from_int(vnum(v, 2) as u8), vbytes(v, 3)).map_err(|_| ())?),
         44 => AllRecordData::Sshfp(Sshfp::new(SshfpAlgorithm::from_int(vnum(v, 0) as u8), SshfpType::from_int(vnum(v, 1) as u8), vbytes(v, 2))),
+        45 => {
+            use domain::rdata::ipseckey::IpseckeyGateway;
+            let alg = domain::base::iana::IpseckeyAlgorithm::from_int(vnum(v, 2) as u8);
+            let (gw, key): (IpseckeyGateway<DN>, Vec<u8>) = match vnum(v, 1) {
+                0 => (IpseckeyGateway::None, vbytes(v, 3)),
+                1 => { let b = vbytes(v, 3); (IpseckeyGateway::Ipv4(A::new(Ipv4Addr::new(b[0], b[1], b[2], b[3]))), vbytes(v, 4)) }
+                2 => { let b = vbytes(v, 3); let mut a = [0u8; 16]; a.copy_from_slice(&b); (IpseckeyGateway::Ipv6(Aaaa::new(Ipv6Addr::from(a))), vbytes(v, 4)) }
+                3 => (IpseckeyGateway::Name(vname(v, 3)), vbytes(v, 4)),
+                _ => return Err(()),
+            };
+            AllRecordData::Ipseckey(Ipseckey::new(vnum(v, 0) as u8, alg, gw, key))
+        }
         46 => AllRecordData::Rrsig(Rrsig::new(Rtype::from_int(vnum(v, 0) as u16), SecurityAlgorithm::from_int(vnum(v, 1) as u8),
                 vnum(v, 2) as u8, Ttl::from_secs(vnum(v, 3) as u32), Timestamp::from(vnum(v, 4) as u32),
                 Timestamp::from(vnum(v, 5) as u32), vnum(v, 6) as u16, vname(v, 7), vbytes(v, 8)).map_err(|_| ())?),
+        47 => AllRecordData::Nsec(Nsec::new(vname(v, 0), domain::rdata::dnssec::RtypeBitmap::from_octets(vbytes(v, 1)).map_err(|_| ())?)),
+        50 => AllRecordData::Nsec3(Nsec3::new(Nsec3HashAlgorithm::from_int(vnum(v, 0) as u8), vnum(v, 1) as u8, vnum(v, 2) as u16,
+                domain::rdata::nsec3::Nsec3Salt::from_octets(vbytes(v, 3)).map_err(|_| ())?,
+                domain::rdata::nsec3::OwnerHash::from_octets(vbytes(v, 4)).map_err(|_| ())?,
+                domain::rdata::dnssec::RtypeBitmap::from_octets(vbytes(v, 5)).map_err(|_| ())?)),
+        64 => AllRecordData::Svcb(Svcb::new(vnum(v, 0) as u16, vname(v, 1), domain::rdata::svcb::SvcParams::from_octets(vbytes(v, 2)).map_err(|_| ())?).map_err(|_| ())?),
+        65 => AllRecordData::Https(Https::new(vnum(v, 0) as u16, vname(v, 1), domain::rdata::svcb::SvcParams::from_octets(vbytes(v, 2)).map_err(|_| ())?).map_err(|_| ())?),
         48 => AllRecordData::Dnskey(Dnskey::new(vnum(v, 0) as u16, vnum(v, 1) as u8, SecurityAlgorithm::from_int(vnum(v, 2) as u8), vbytes(v, 3)).map_err(|_| ())?),
         51 => AllRecordData::Nsec3param(Nsec3param::new(Nsec3HashAlgorithm::from_int(vnum(v, 0) as u8), vnum(v, 1) as u8,
                 vnum(v, 2) as u16, domain::rdata::nsec3::Nsec3Salt::from_octets(vbytes(v, 3)).map_err(|_| ())?)),
@@ -195,10 +227,23 @@ fn explode<O: AsRef<[u8]>, N: ToName>(d: &AllRecordData<O, N>) -> Option<Vec<Val
         AllRecordData::Dname(x) => vec![nv(x.dname())],
         AllRecordData::Ds(x) => vec![num(x.key_tag()), num(x.algorithm().to_int()), num(x.digest_type().to_int()), bv(x.digest())],
         AllRecordData::Sshfp(x) => vec![num(x.algorithm().to_int()), num(x.fingerprint_type().to_int()), bv(x.fingerprint())],
+        AllRecordData::Ipseckey(x) => {
+            use domain::rdata::ipseckey::IpseckeyGateway;
+            let mut o = vec![num(x.precedence()), num(x.gateway_type().to_int()), num(x.algorithm().to_int())];
+            match x.gateway() { IpseckeyGateway::None => {}, IpseckeyGateway::Ipv4(a) => o.push(Val::Bytes(a.addr().octets().to_vec())),
+                                IpseckeyGateway::Ipv6(a) => o.push(Val::Bytes(a.addr().octets().to_vec())), IpseckeyGateway::Name(n) => o.push(nv(n)) }
+            o.push(bv(x.key()));
+            o
+        }
         AllRecordData::Rrsig(x) => vec![num(x.type_covered().to_int()), num(x.algorithm().to_int()), num(x.labels()),
             num(x.original_ttl().as_secs()), num(x.expiration().into_int()), num(x.inception().into_int()),
             num(x.key_tag()), nv(x.signer_name()), bv(x.signature())],
         AllRecordData::Dnskey(x) => vec![num(x.flags()), num(x.protocol()), num(x.algorithm().to_int()), bv(x.public_key())],
+        AllRecordData::Nsec(x) => vec![nv(x.next_name()), Val::Bytes(x.types().as_slice().to_vec())],
+        AllRecordData::Nsec3(x) => vec![num(x.hash_algorithm().to_int()), num(x.flags()), num(x.iterations()), Val::Bytes(x.salt().as_slice().to_vec()),
+            Val::Bytes(x.next_owner().as_slice().to_vec()), Val::Bytes(x.types().as_slice().to_vec())],
+        AllRecordData::Svcb(x) => vec![num(x.priority()), nv(x.target()), Val::Bytes(x.params().as_slice().to_vec())],
+        AllRecordData::Https(x) => vec![num(x.priority()), nv(x.target()), Val::Bytes(x.params().as_slice().to_vec())],
         AllRecordData::Nsec3param(x) => vec![num(x.hash_algorithm().to_int()), num(x.flags()), num(x.iterations()), Val::Bytes(x.salt().as_slice().to_vec())],
         AllRecordData::Tlsa(x) => vec![num(x.usage().to_int()), num(x.selector().to_int()), num(x.matching_type().to_int()), bv(x.data())],
         AllRecordData::Cds(x) => vec![num(x.key_tag()), num(x.algorithm().to_int()), num(x.digest_type().to_int()), bv(x.digest())],
@@ -266,8 +311,53 @@ fn gen_num(r: &mut Rng, w: u32) -> u64 {
     let max = if w == 8 { u64::MAX } else { (1u64 << (8 * w)) - 1 };
     match r.below(6) { 0 => 0, 1 => max, 2 => 1, 3 => max >> 1, 4 => 1u64 << (8 * w - 8), _ => r.next() & max }
 }
+/// type bitmap octets: mostly well-formed window blocks; windows need not ascend
+fn gen_bitmap(r: &mut Rng, allow_bad: bool) -> Vec<u8> {
+    let mut out = vec![];
+    let n = match r.below(6) { 0 => 0, 1 => 1, 2 => 20, _ => r.below(4) };
+    let mut w = 0u16;
+    for _ in 0..n {
+        let win = if r.chance(1, 8) { r.u8() } else { let x = w as u8; w = (w + 1 + r.below(40) as u16).min(255); x };
+        let len = match r.below(6) { 0 => 1usize, 1 => 32, _ => 1 + r.below(32) as usize };
+        out.push(win); out.push(len as u8);
+        let mut d = r.bytes(len); if r.chance(3, 4) { let k = d.len() - 1; d[k] |= 1; }
+        out.extend_from_slice(&d);
+    }
+    if allow_bad && !out.is_empty() {
+        match r.below(5) { 0 => { out.pop(); } 1 => { out[1] = 0; } 2 => { out[1] = 33 + r.below(200) as u8; } 3 => { out.push(r.u8()); } _ => {} }
+    }
+    out
+}
+/// SVCB parameter octets: (key, length, data)*, keys mostly strictly ascending
+fn gen_svcparams(r: &mut Rng, allow_bad: bool) -> Vec<u8> {
+    let mut out = vec![];
+    let n = match r.below(6) { 0 => 0, 1 => 1, 2 => 12, _ => r.below(5) };
+    let mut key = if r.chance(1, 3) { 0u32 } else { r.below(8) as u32 };
+    for _ in 0..n {
+        if key > 65535 { break; }
+        let len = match r.below(6) { 0 => 0usize, 1 => 300, _ => r.below(20) as usize };
+        out.extend_from_slice(&(key as u16).to_be_bytes()); out.extend_from_slice(&(len as u16).to_be_bytes()); out.extend_from_slice(&r.bytes(len));
+        key += if allow_bad && r.chance(1, 6) { 0 } else { 1 + match r.below(4) { 0 => 0, 1 => 60000, _ => r.below(9) as u32 } };
+    }
+    if allow_bad && !out.is_empty() {
+        match r.below(5) { 0 => { out.pop(); } 1 => { let k = out.len(); out.truncate(k.saturating_sub(3)); } 2 => { out.extend_from_slice(&[0, 0, 0, 0]); } 3 => { out.push(r.u8()); } _ => {} }
+    }
+    out
+}
 fn gen_value(r: &mut Rng, t: u16, allow_bad: bool) -> Vec<Val> {
-    fields(t).iter().map(|f| match *f {
+    let hint = vec![Val::Num(0), Val::Num(r.below(4))];
+    let mut v = gen_value_fs(r, &fields_v(t, &hint), allow_bad);
+    if t == 45 {
+        v[1] = hint[1].clone();
+        v[2] = Val::Num(r.below(4));
+        // a key-less value with a key algorithm is the known ctor_reparse_IPSECKEY finding: keep it to the corpus
+        let k = v.len() - 1;
+        if matches!(&v[k], Val::Bytes(b) if b.is_empty()) && !matches!(v[2], Val::Num(0)) { v[k] = Val::Bytes(vec![r.u8()]); }
+    }
+    v
+}
+fn gen_value_fs(r: &mut Rng, fs: &[F], allow_bad: bool) -> Vec<Val> {
+    fs.iter().map(|f| match *f {
         F::Num(w) => Val::Num(gen_num(r, w)),
         F::Fix(k) => Val::Bytes(r.bytes(k)),
         F::Name => Val::Name(gen_name(r)),
@@ -275,6 +365,8 @@ fn gen_value(r: &mut Rng, t: u16, allow_bad: bool) -> Vec<Val> {
         F::Strs => { let n = match r.below(8) { 0 if allow_bad => 0, 1 => 1, 2 => 30, _ => 1 + r.below(5) as usize };
                      Val::Strs((0..n).map(|_| gen_str(r, false, allow_bad)).collect()) }
         F::Len16 => { let n = gen_len(r, true); Val::Bytes(r.bytes(n)) }
+        F::Bitmap => Val::Bytes(gen_bitmap(r, allow_bad)),
+        F::Svc => Val::Bytes(gen_svcparams(r, allow_bad)),
         F::Rest(min) => { let n = if min > 0 && !(allow_bad && r.chance(1, 6)) { min + gen_len(r, true) } else { gen_len(r, true) }; Val::Bytes(r.bytes(n)) }
     }).collect()
 }
@@ -282,7 +374,7 @@ fn gen_value(r: &mut Rng, t: u16, allow_bad: bool) -> Vec<Val> {
 fn vlen(fs: &[F], v: &[Val]) -> usize {
     fs.iter().zip(v).map(|(f, x)| match (f, x) {
         (F::Num(w), _) => *w as usize,
-        (F::Fix(_), Val::Bytes(b)) | (F::Rest(_), Val::Bytes(b)) => b.len(),
+        (F::Fix(_), Val::Bytes(b)) | (F::Rest(_), Val::Bytes(b)) | (F::Bitmap, Val::Bytes(b)) | (F::Svc, Val::Bytes(b)) => b.len(),
         (F::Name, Val::Name(w)) => w.len(),
         (F::Str(_), Val::Bytes(b)) => b.len() + 1,
         (F::Strs, Val::Strs(l)) => l.iter().map(|s| s.len() + 1).sum(),
@@ -291,7 +383,7 @@ fn vlen(fs: &[F], v: &[Val]) -> usize {
 }
 /// resize the last unbounded field so that the total is `total`
 fn fit_total(r: &mut Rng, t: u16, v: &mut Vec<Val>, total: usize) -> bool {
-    let fs = fields(t);
+    let fs = fields_v(t, v);
     let idx = match fs.iter().rposition(|f| matches!(f, F::Rest(_) | F::Len16 | F::Strs)) { Some(i) => i, None => return false };
     let cur = vlen(&fs, v);
     match (&fs[idx], &mut v[idx]) {
@@ -328,7 +420,7 @@ fn encode(fs: &[F], v: &[Val], prefix: &mut Vec<u8>, r: &mut Rng, compress: bool
     for (f, x) in fs.iter().zip(v) {
         match (f, x) {
             (F::Num(w), Val::Num(n)) => { for i in (0..*w).rev() { out.push((n >> (8 * i)) as u8); } }
-            (F::Fix(_), Val::Bytes(b)) | (F::Rest(_), Val::Bytes(b)) => out.extend_from_slice(b),
+            (F::Fix(_), Val::Bytes(b)) | (F::Rest(_), Val::Bytes(b)) | (F::Bitmap, Val::Bytes(b)) | (F::Svc, Val::Bytes(b)) => out.extend_from_slice(b),
             (F::Str(_), Val::Bytes(b)) => { out.push(b.len() as u8); out.extend_from_slice(b); }
             (F::Strs, Val::Strs(l)) => { for s in l { out.push(s.len() as u8); out.extend_from_slice(s); } }
             (F::Len16, Val::Bytes(b)) => { out.push((b.len() >> 8) as u8); out.push(b.len() as u8); out.extend_from_slice(b); }
@@ -400,11 +492,36 @@ fn eq_class<O, N>(d: &AllRecordData<O, N>, tn: &str) -> String {
     }
 }
 
+/// Octets-generic conversions keep the value: OctetsFrom (Vec -> Bytes) on the built value,
+/// FlattenInto (ParsedName -> Name<Vec>) on a parsed one.
+fn conversions(out: &mut Out, tn: &str, case: &str, built: &Built, parsed: &AllRecordData<&[u8], ParsedName<&[u8]>>, v: Option<&[Val]>, wire: &[u8]) {
+    let conv = catch_mut(|| AllRecordData::<bytes::Bytes, Name<bytes::Bytes>>::try_octets_from(built.clone()));
+    match conv {
+        Ok(Ok(c)) => {
+            chk(out, compose_plain(&c).ok().as_deref() == Some(wire), &format!("octets_from_{}", tn), case, "value converted with OctetsFrom composes differently");
+            chk(out, c == *built, &format!("octets_from_{}", tn), case, "value converted with OctetsFrom != original");
+            chk(out, v.is_none() || explode(&c).as_deref() == v, &format!("octets_from_{}", tn), case, "value converted with OctetsFrom has different fields");
+        }
+        Ok(Err(_)) => chk(out, false, &format!("octets_from_{}", tn), case, "OctetsFrom failed"),
+        Err(e) => chk(out, false, &format!("octets_from_{}", tn), case, &format!("OctetsFrom panicked: {}", e)),
+    }
+    let flat = catch_mut(|| -> Result<Built, _> { parsed.clone().try_flatten_into() });
+    match flat {
+        Ok(Ok(f)) => {
+            chk(out, compose_plain(&f).ok() == compose_plain(parsed).ok(), &format!("flatten_{}", tn), case, "flattened value composes differently");
+            chk(out, f == *parsed, &format!("flatten_{}", tn), case, "flattened value != parsed value");
+            chk(out, explode(&f) == explode(parsed), &format!("flatten_{}", tn), case, "flattened value has different fields");
+        }
+        Ok(Err(_)) => chk(out, false, &format!("flatten_{}", tn), case, "FlattenInto failed"),
+        Err(e) => chk(out, false, &format!("flatten_{}", tn), case, &format!("FlattenInto panicked: {}", e)),
+    }
+}
+
 fn compose_case(out: &mut Out, r: &mut Rng, t: u16, v: &[Val], kind: &str) {
     let tn = tname(t);
     let case = format!("compose {} {}", t, toks(v));
     out.begin(&case);
-    let fs = fields(t);
+    let fs = fields_v(t, v);
     let total = vlen(&fs, v);
     let built = match catch_mut(|| build(t, v)) {
         Ok(Ok(b)) => b,
@@ -440,6 +557,7 @@ fn compose_case(out: &mut Out, r: &mut Rng, t: u16, v: &[Val], kind: &str) {
             chk(out, ev.as_deref() == Some(v), &format!("roundtrip_{}", tn), &case, &format!("parsed back {}", ev.map(|e| toks(&e)).unwrap_or_default()));
             chk(out, p == built, &eq_class(&built, &tn), &case, "parsed value != built value (PartialEq)");
             chk(out, built == built, &eq_class(&built, &tn), &case, "value != itself (PartialEq)");
+            if wire.len() < 5000 { conversions(out, &tn, &case, &built, &p, Some(v), &wire); }
         }
         Ok(Err(e)) => {
             let cls = if short_rest { format!("ctor_reparse_{}", tn) } else { format!("roundtrip_{}", tn) };
@@ -507,6 +625,8 @@ fn message_path(out: &mut Out, r: &mut Rng, t: u16, v: Option<&[Val]>, built: &B
                 }
                 _ => return Err("recomposed RDATA does not parse".into()),
             }
+            let flat: Built = rr.data().clone().try_flatten_into().map_err(|_| "FlattenInto failed".to_string())?;
+            if compose_plain(&flat).ok() != Some(again.clone()) || flat != *rr.data() { return Err("flatten: flattened (decompressed) value differs from the parsed one".into()); }
             let rl = rr.data().rdlen(false);
             if rl != Some(again.len() as u16) { return Err(format!("rdlen {:?} of parsed value but {} octets written", rl, again.len())); }
             n += 1;
@@ -595,7 +715,7 @@ fn equnk_case(out: &mut Out, t1: u16, b1: &[u8], t2: u16, b2: &[u8]) {
 
 /// parse cases derived from one value
 fn parse_cases_for(out: &mut Out, r: &mut Rng, t: u16, v: &[Val]) {
-    let fs = fields(t);
+    let fs = fields_v(t, v);
     let compress = r.chance(2, 3);
     let k0 = r.below(6) as usize;
     let mut prefix = r.bytes(k0);
@@ -626,7 +746,7 @@ fn boundary_cases(out: &mut Out, r: &mut Rng, t: u16) {
         let mut v = gen_value(r, t, false);
         // keep the other variable parts small
         if !fit_total(r, t, &mut v, total) { return; }
-        if vlen(&fields(t), &v) != total { continue; }
+        if vlen(&fields_v(t, &v), &v) != total { continue; }
         compose_case(out, r, t, &v, if total == 65535 { "compose_max" } else { "compose_overlong" });
     }
 }
@@ -725,6 +845,7 @@ mod irregular {
                 chk(out, *built == *built, &eq_class(built, &tn), &case, "value != itself (PartialEq)");
                 let again = compose_plain(&p).unwrap_or_default();
                 chk(out, again == wire, &format!("recompose_{}", tn), &case, &format!("parsed value composes to {} instead of {}", hex(&again), hex(&wire)));
+                if wire.len() < 5000 { conversions(out, &tn, &case, built, &p, None, &wire); }
                 let rl2 = catch_mut(|| p.rdlen(false));
                 chk(out, rl2 == Ok(Some(wire.len() as u16)), &format!("rdlen_{}", tn), &case, "rdlen of parsed value");
             }
@@ -867,6 +988,42 @@ mod edns {
                         let mut d = c.to_be_bytes().to_vec(); d.extend_from_slice(&utf8ish(r)); d } }
             _ => { let n = match r.below(8) { 0 => 0, 1 => 1, 2 => 600, 3 => 4000, _ => r.below(40) as usize }; r.bytes(n) }
         }
+    }
+
+    /// the option taken apart with its accessors (fields as in the Coq option table)
+    fn opt_explode(o: &AO) -> Vec<Val> {
+        let comp = |o: &AO| Val::Bytes(written(o).map(|x| x.1).unwrap_or_default());
+        match o {
+            AllOptData::Nsid(x) => vec![Val::Bytes(x.as_slice().to_vec())],
+            AllOptData::Dau(x) => vec![Val::Bytes(x.as_slice().to_vec())],
+            AllOptData::Dhu(x) => vec![Val::Bytes(x.as_slice().to_vec())],
+            AllOptData::N3u(x) => vec![Val::Bytes(x.as_slice().to_vec())],
+            AllOptData::KeyTag(x) => vec![Val::Bytes(x.as_slice().to_vec())],
+            AllOptData::Padding(x) => vec![Val::Bytes(x.as_slice().to_vec())],
+            AllOptData::Other(x) => vec![Val::Bytes(x.as_slice().to_vec())],
+            AllOptData::Chain(x) => vec![nv(x.start())],
+            AllOptData::ExtendedError(x) => vec![Val::Num(x.code().to_int() as u64), Val::Bytes(x.text_slice().unwrap_or(&[]).to_vec())],
+            AllOptData::ClientSubnet(x) => {
+                let pb = (x.source_prefix_len() as usize + 7) / 8;
+                let (fam, oct) = match x.addr() { IpAddr::V4(a) => (1u64, a.octets().to_vec()), IpAddr::V6(a) => (2, a.octets().to_vec()) };
+                vec![Val::Num(fam), Val::Num(x.source_prefix_len() as u64), Val::Num(x.scope_prefix_len() as u64), Val::Bytes(oct[..pb.min(oct.len())].to_vec())]
+            }
+            other => vec![comp(other)],     // Expire, TcpKeepalive, Cookie: their octets
+        }
+    }
+    /// T2: the contents of one option
+    pub fn optdata_case(out: &mut Out, code: u16, data: &[u8], kind: &str) {
+        let case = format!("optdata {} {}", code, hex(data));
+        out.begin(&case);
+        let raw = frame(code, data);
+        let res = parse_one(&raw);
+        let (obs, nt) = match &res {
+            Ok(Some(Ok(o))) => (format!("Ok {}", toks(&opt_explode(o))), true),
+            Ok(Some(Err(e))) => (perr(e).to_string(), matches!(e, ParseError::Form(_))),
+            Ok(None) => ("None".to_string(), false),
+            Err(_) => ("Panic".to_string(), true),
+        };
+        out.case(&case, &obs, nt, kind);
     }
 
     /// one option: (code, data) -> accepted?
@@ -1069,10 +1226,18 @@ mod edns {
         option_case(out, latin1.0, &latin1.1, false, "corpus");
         group_case(out, &[latin1.clone(), (3, b"ns1".to_vec())]);
         group_case(out, &[(10, vec![1; 8]), latin1.clone(), (12, vec![0; 5]), (8, vec![0, 1, 24, 0, 192, 0, 2])]);
+        for (c, d) in [(8u16, vec![0u8, 1, 24, 0, 192, 0, 2]), (8, vec![0, 1, 23, 0, 192, 0, 3]), (8, vec![0, 1, 33, 0, 1, 2, 3, 4, 5]), (8, vec![0, 2, 0, 0]),
+                       (9, vec![1, 2, 3]), (9, vec![1, 2, 3, 4, 5]), (10, vec![1; 9]), (10, vec![1; 40]), (10, vec![1; 41]), (11, vec![0]), (11, vec![0, 1, 2]),
+                       (13, vec![1, 97, 0, 0]), (13, vec![192, 0]), (15, vec![0]), (14, vec![0, 1, 2])] {
+            optdata_case(out, c, &d, "corpus");
+        }
         for (c, d) in constructed(out, r) { if option_case(out, c, &d, true, "edns_ctor") { pool.push((c, d)); } }
         for &code in CODES.iter() {
             for _ in 0..(n / 2).max(20) {
                 let d = gen_data(r, code);
+                // chain: Name::parse and the flat reader of the model order the "long name" and
+                // "short input" errors differently; keep the T2 input within 255 octets
+                if code != 13 || d.len() <= 255 { optdata_case(out, code, &d, &format!("optdata_{}", cname(code))); }
                 if option_case(out, code, &d, false, &format!("edns_{}", cname(code))) && d.len() < 5000 { pool.push((code, d)); }
             }
         }
